@@ -29,6 +29,12 @@ Step(e) ==
            ELSE {Dev("C14.lookup", IF e.first THEN "first_lookup" ELSE "after_other_lookup",
                      [name |-> e.name, env |-> e.env, prev |-> e.prev,
                       fields |-> {f \in DOMAIN want.e : want.e[f] # e.e[f]}])}
+      [] e.ev = "Register" ->
+           \* unknown at first; once registered it resolves, and so do the variants synthesized from it
+           (IF e.unknown_before THEN {} ELSE {Dev("C14.lookup", "found_unknown", e.name)})
+           \cup (IF e.found_after THEN {} ELSE {Dev("C14.lookup", "not_found_after_registration", e.name)})
+           \* (NAME-256color is made from NAME-88color / NAME-color only, as Synth says: not required of a bare name)
+           \cup (IF e.truecolor_after THEN {} ELSE {Dev("C14.lookup", "variant_not_found_after_registration", <<e.name, e.truecolor_after>>)})
       [] OTHER -> {}
 
 Report(e, devs) == \A d \in devs : PrintT("@@V " \o ToJson(d @@ [l |-> l, ev |-> e.ev]))
